@@ -3,7 +3,7 @@
 #include "rcx.hpp"
 
 extern "C" {
-void *lp_make_iface(const char *name, unsigned ifType, unsigned mediumType, unsigned mtu, unsigned linkSpeed, unsigned flags, const unsigned char mac[6], int sock);
+void *lp_make_iface(const char *name, unsigned ifType, unsigned mediumType, unsigned mtu, unsigned linkSpeed, unsigned flags, const unsigned char mac[6], int sock, int ifclass);
 void lp_free_iface(void *p);
 unsigned lp_ifm_fdx(void);
 unsigned lp_iff_loopback(void);
@@ -26,6 +26,7 @@ int lltd_port_get_link_speed_100bps(void *ctx, uint32_t *out);
 int lltd_port_get_wifi_mode(void *ctx, uint8_t *out);
 }
 
+// cfg[7]: interface class of the record (bond, bridge, ethernet, 802.11, VLAN)
 // cfg: [0] ifType [1] MediumType [2] MTU [3] LinkSpeed [4] flags [5] mac [6] which addr entries exist (bit0 v4 own, bit1 v6 own, bit2 decoys first, bit3 entry with NULL addr, bit4 getifaddrs fails)
 // blobs: name, ipv4(4), ipv6(16), hostname
 static Verdict run(const Case &c) {
@@ -49,7 +50,7 @@ static Verdict run(const Case &c) {
     if (sel & 1) lp_add_addr(name.c_str(), 0, ip4.data(), 0);
     if (!(sel & 4)) lp_add_addr("lo", 0, other4, 0);
     lp_set_getifaddrs_fail(sel & 16 ? 1 : 0);
-    void *ifc = lp_make_iface(name.c_str(), ifType, medium, mtu, speed, flags, mac.b, 7);
+    void *ifc = lp_make_iface(name.c_str(), ifType, medium, mtu, speed, flags, mac.b, 7, (int)(c.c(7) % 5));
     // ---- getters against the record
     size_t gm = 0; uint8_t gmac[6] = {0}; uint32_t gt = 0, gs = 0, g4 = 0; uint8_t g6[16] = {0}; uint8_t wm = 0;
     if (lltd_port_get_mtu(ifc, &gm) != 0 || gm != mtu) v.fail(fmt("get_mtu gives %zu, record has %u", gm, mtu));
@@ -113,6 +114,7 @@ static Verdict run(const Case &c) {
 int main(int argc, char **argv) {
     Args a = parse_args(argc, argv);
     if (!a.replay.empty()) return replay_case(a, run);
+    zygote_start(run);   // before any code under test runs in this process
     Current::install(a.failing);
     Evidence ev;
     ev.rule = "the real os/linux/lltd_port.c (libc calls redirected by objcopy: sendto/getifaddrs/freeifaddrs/nanosleep/gethostname/stdio) against generated network_interface_t records and generated interface address lists "
@@ -123,7 +125,7 @@ int main(int argc, char **argv) {
         Case c;
         auto g32 = [&] { return gx::bnd(d32, 0, 0xFFFFFFFFLL, 1, 1); };
         c.cfg = {*g32(), *gx::bnd({0, 0x10, 0x20, 0x30, 0x100000, 0xFFFFFFFFLL, 0xFFFFFFEFLL}, 0, 0xFFFFFFFFLL, 3, 1), *gx::pick({576, 1500, 9000, 9216}), *g32(),
-                 *gx::bnd({0, 0x8, 0x1, 0x1043, 0x1049, 0xFFFF, 0xFFF7}, 0, 0xFFFF, 3, 1), *gx::range<int64_t>(0, 0xFFFFFFFFFFFFLL), *gx::bnd({3, 3, 7, 1, 2, 0, 11, 19}, 0, 31, 4, 1)};
+                 *gx::bnd({0, 0x8, 0x1, 0x1043, 0x1049, 0xFFFF, 0xFFF7}, 0, 0xFFFF, 3, 1), *gx::range<int64_t>(0, 0xFFFFFFFFFFFFLL), *gx::bnd({3, 3, 7, 1, 2, 0, 11, 19}, 0, 31, 4, 1), *gx::range<int64_t>(0, 4)};
         c.blobs = {*gx::bytes(0, 6), *gx::bytes(4, 4), *gx::bytes(16, 16), *gx::bytes(0, 40)};
         return c;
     });
